@@ -102,9 +102,19 @@ func init() {
 		"(time.Time).Weekday": func(a *Act, st *State, c *ssa.Function, x []Val, p tokenPos) Val {
 			return t1(app("mod", app("+", x[0].T, "1"), "7"), resType(c, 0))
 		},
-		"(time.Time).Year":  uninterp("time_year"),
-		"(time.Time).Month": uninterp("time_month"),
-		"(time.Time).Day":   uninterp("time_day"),
+		"(time.Time).Year": uninterp("time_year"),
+		"(time.Time).Month": func(a *Act, st *State, c *ssa.Function, x []Val, p tokenPos) Val {
+			f := a.u.D.Fun("time_month", []string{"Int"}, "Int")
+			r := app(f, x[0].T)
+			st.assume(and(app("<=", "1", r), app("<=", r, "12")))
+			return t1(r, resType(c, 0))
+		},
+		"(time.Time).Day": func(a *Act, st *State, c *ssa.Function, x []Val, p tokenPos) Val {
+			f := a.u.D.Fun("time_day", []string{"Int"}, "Int")
+			r := app(f, x[0].T)
+			st.assume(and(app("<=", "1", r), app("<=", r, "31")))
+			return t1(r, resType(c, 0))
+		},
 		// durations are nanoseconds (mathematical integers); times are whole days
 		"(time.Time).Sub": func(a *Act, st *State, c *ssa.Function, x []Val, p tokenPos) Val {
 			return t1(app("*", app("-", x[0].T, x[1].T), "86400000000000"), resType(c, 0))
